@@ -48,6 +48,7 @@ type gen struct {
 	css    strings.Builder
 	oofMax int // maximal number of floats / absolutely positioned boxes (KF15-2 needs two)
 	oof    int
+	noGrid bool
 }
 
 // oofOK reports whether one more out-of-flow box may be generated.
@@ -240,16 +241,16 @@ func (g *gen) block(depth int) string {
 	case k == 9 && g.oofOK():
 		g.feat["abs"] = true
 		return `<div style="position:relative;height:` + px(r, 20, 120) + `"><div` + g.idAttr() + g.style("position:absolute", "top:"+px(r, 0, 40), "left:"+px(r, 0, 200)) + ">" + text(r, 3) + "</div>" + text(r, 5) + "</div>"
-	case k == 10:
+	case k == 10 && r.Bool():
 		g.feat["tall"] = true // forces page breaks
 		return `<div` + g.idAttr() + g.style("height:"+px(r, 80, 400)) + ">" + text(r, 4) + "</div>"
-	case k == 11:
+	case k == 11 && r.Bool():
 		g.feat["break"] = true
 		return `<div style="break-before:` + rng.Pick(r, "page", "left", "right", "avoid") + `"` + g.idAttr() + ">" + g.para() + "</div>"
 	case k == 12:
 		g.feat["hyphens"] = true
 		return `<p lang="` + rng.Pick(r, "en", "en", "fr", "de") + `" style="hyphens:auto;width:` + px(r, 30, 120) + `;text-align:justify">` + text(r, r.Range(8, 25)) + "</p>"
-	case k == 13:
+	case k == 13 && !g.noGrid:
 		g.feat["grid"] = true
 		var b strings.Builder
 		fmt.Fprintf(&b, `<div style="display:grid;grid-template-columns:%s;gap:%s%s">`, rng.Pick(r, "1fr 1fr", "100px auto 1fr", "repeat(3, 1fr)", "50px 50px"), px(r, 0, 8), rng.Pick(r, "", ";grid-auto-flow:dense", ";grid-auto-flow:column"))
@@ -336,7 +337,9 @@ func genDoc(r *rng.R, id int) Doc {
 	g := &gen{r: r, feat: map[string]bool{}, oofMax: 1000}
 	seed := r.Seed()
 	if r.P(3, 5) {
-		g.oofMax = 1 // at most one float/abspos: the known defect KF15-2 cannot occur, any difference is new
+		// at most one float/abspos and no grid container: the known defects KF15-2 and KF15-3
+		// cannot occur, any difference (anchor order aside) is new
+		g.oofMax, g.noGrid = 1, true
 	}
 	var css strings.Builder
 	// page geometry: small pages so that most documents paginate
@@ -405,7 +408,7 @@ func genDoc(r *rng.R, id int) Doc {
 		feats = append(feats, f)
 	}
 	if g.oofMax == 1 {
-		feats = append(feats, "oof<=1")
+		feats = append(feats, "oof<=1,no-grid")
 	}
 	sortStrings(feats)
 	return Doc{ID: id, Seed: seed, HTML: html, Feats: feats}
